@@ -333,7 +333,9 @@ func (s *Session) onSetup(resp *rtsp.Response, req *rtsp.Request) {
 		return
 	}
 
-	err := s.transport.ParseTransport(chindex, ts)
+	// 在副本上解析：被拒绝的 SETUP 不能改变会话已协商的传输参数
+	transport := s.transport
+	err := transport.ParseTransport(chindex, ts)
 	if err != nil {
 		resp.StatusCode = rtsp.StatusInvalidParameter
 		resp.Status = err.Error()
@@ -341,17 +343,18 @@ func (s *Session) onSetup(resp *rtsp.Response, req *rtsp.Request) {
 	}
 
 	// 检查必须是play模式
-	if rtsp.PlaySession != s.transport.Mode {
+	if rtsp.PlaySession != transport.Mode {
 		resp.StatusCode = rtsp.StatusInvalidParameter
 		resp.Status = "can't setup as record"
 		return
 	}
 
-	if s.transport.Type != rtsp.RTPTCPUnicast { // 需要修改回复的transport
+	if transport.Type != rtsp.RTPTCPUnicast { // 需要修改回复的transport
 		resp.StatusCode = rtsp.StatusUnsupportedTransport
 		resp.Status = "websocket only support tcp unicast"
 		return
 	}
+	s.transport = transport
 
 	if s.status < statusReady { // 初始状态切换到Ready
 		s.status = statusReady
